@@ -173,6 +173,8 @@ impl File {
 pub mod fs {
     use super::*;
     pub use super::fs_filetype::FileType;
+    pub use super::fs_more::{metadata, symlink_metadata, create_dir};
+    pub use super::{remove_file, create_dir_all, read_link, canonicalize, File, Permissions, OpenOptions};
     /// rename(2): the *entry* moves: every spelling of the old entry stops resolving, `b` now designates the object; inodes and contents untouched.
     /// (Two spellings of one entry necessarily reach the same inode.)
     #[verifier::external_body]
